@@ -167,3 +167,47 @@ def _chacha_xor(ex, args, ins, where):
         ex.set_slice_elems(dst, 0, out)
     ex.heap[p.obj] = ('chacha', key, nonce, off + len(s))
     return None
+
+
+# ------------------------------------------------------------------ encoding/binary.Write / Read for integer kinds (reflection-free model)
+def _order_name(ex, order):
+    if not isinstance(order, Iface):
+        raise Unsupported('binary byte order value')
+    s = ex.T.canon(order.t)
+    if 'littleEndian' in s:
+        return 'little'
+    if 'bigEndian' in s:
+        return 'big'
+    raise Unsupported('byte order ' + s)
+
+
+@intrinsic('encoding/binary.Write')
+def _binary_write(ex, args, ins, where):
+    w, order, data = args
+    endian = _order_name(ex, order)
+    if not isinstance(data, Iface):
+        raise Unsupported('binary.Write data')
+    T = ex.T
+    t, v = data.t, data.v
+    if T.kind(t) == 'ptr':
+        t = T.elem(t)
+        v = ex.load(v, where, t)
+    k = T.kind(t)
+    if k == 'int':
+        n = T.width(t) // 8
+        bs = []
+        for i in range(n):
+            if is_sym(v):
+                bs.append(simp(z3.Extract(8 * i + 7, 8 * i, v)))
+            else:
+                bs.append((v >> (8 * i)) & 0xff)
+        if endian == 'big':
+            bs.reverse()
+    elif k == 'bool':
+        bs = [ex.ite_t(v, 1, 0, ex.t_uint8) if is_sym(v) else (1 if v else 0)]
+    elif k == 'slice' and T.kind(T.elem(t)) == 'int' and T.width(T.elem(t)) == 8:
+        bs = ex.slice_elems(v)
+    else:
+        raise Unsupported('binary.Write of ' + T.tab[t]['str'])
+    r = ex.invoke(w, 'Write', [ex.mkslice(bs)], ins, where, 10)
+    return r[1]
